@@ -241,7 +241,12 @@ class C07(BaseCheck):
         m = MethodReturnMessage(return_value=('r', req['id']))
       else:
         m = MethodReturnMessage(error=Exception(how))
-      req['stack'].AsyncProcessResponseMessage(m)
+      try:
+        req['stack'].AsyncProcessResponseMessage(m)
+      except Exception as e:  # noqa: an exception escaping the pool's release path is an observation
+        import traceback
+        viol('release-raised', 'delivering the completion of request %d (%s) through the pool raised %s: %s' % (
+          req['id'], how, type(e).__name__, e), {'exc': type(e).__name__}, {'traceback': traceback.format_exc()[-700:]})
 
     pool_closed_at = [None]
     stats = {'max_queue': 0, 'timed_out_queued': 0, 'deaths': 0, 'created': 0, 'stale_head': 0}
